@@ -186,6 +186,13 @@ class Program:
                     self.inlined.setdefault("<new modules>", []).extend(pn)
             except Exception as e:
                 self.expansion_errors.append(f"<new modules>: {type(e).__name__}: {e}")
+            # (0c) required parameters passed by keyword are read in their positions
+            try:
+                pk = inline.positional_required_arguments({n: m.tree for n, m in self.modules.items()})
+                if pk:
+                    self.inlined.setdefault("<keyword arguments>", []).extend(pk)
+            except Exception as e:
+                self.expansion_errors.append(f"<keyword arguments>: {type(e).__name__}: {e}")
             # (1) functions that were merely renamed get their original names back
             try:
                 rn = inline.undo_renames({n: m.tree for n, m in self.modules.items()})
